@@ -247,6 +247,48 @@ def judge_listing(ctx, reader, got, must, may, limit, kind, w, tok_of):
             ctx.violation('listed id not fetchable on %s cassette: %s' % (kind, type(ex).__name__), dict(w, id=rid))
 
 
+def shared_objects_listing(ctx):
+    """The metadata extractor reports part of what the operation recorded as data - the SAME object sits in the recording's data and in
+    its metadata (stored once, referenced twice by the serializer). Lookups by that value find the recording on every cassette."""
+    per = {}
+    for kind, prefix in CONFIGS:
+        with open_box(kind, prefix=prefix) as box:
+            saved = []
+            for i in range(6):
+                lines = [['sku-%d' % i, i], ['sku-x', 1]]
+                order = {'customer': 'c%d' % (i % 2), 'lines': [['sku-%d' % i, i], ['sku-x', 1]]}
+                # (each metadata value is shared with the DATA, not with another metadata value: the S3 cassette matches on the stored
+                #  JSON form of the metadata document, see C14's assumptions)
+                rec = box.cassette.create_new_recording('Orders')
+                rec.set_data('input: orders.load args=[], kwargs=[]', {'value': order})
+                rec.set_data('output: orders.store #1.output', {'args': [lines], 'kwargs': {}})
+                md = {'order': order, 'lines': lines, 'n': i, 'tok': 't%d' % i} if i % 3 else {'order': {'customer': 'c%d' % (i % 2), 'lines': [['sku-%d' % i, i], ['sku-x', 1]]},
+                                                                                           'lines': [['sku-%d' % i, i], ['sku-x', 1]], 'n': i, 'tok': 't%d' % i}
+                rec.add_metadata(md)
+                box.cassette.save_recording(rec)
+                saved.append((rec.id, {'order': {'customer': 'c%d' % (i % 2), 'lines': [['sku-%d' % i, i], ['sku-x', 1]]}, 'lines': [['sku-%d' % i, i], ['sku-x', 1]], 'n': i, 'tok': 't%d' % i}))
+            reader = box.reader()
+            for qi, flt in enumerate([{'order': saved[1][1]['order']}, {'order': saved[3][1]['order']}, {'lines': {'operator': '=', 'value': saved[2][1]['lines']}},
+                                      {'order': {'operator': '=', 'value': saved[4][1]['order']}}, {'n': 1}, {'order': {'customer': 'nobody', 'lines': []}}]):
+                w = {'shared_objects_listing': True, 'cassette': kind, 'prefix': prefix, 'filter': flt}
+                ctx.case(w)
+                ctx.count('listings_by_a_value_shared_between_data_and_metadata')
+                try:
+                    got = list(reader.iter_recording_ids('Orders', metadata=flt))
+                except Exception as ex:
+                    ctx.violation('listing on %s cassette raised %s' % (kind, type(ex).__name__), dict(w, error=repr(ex)[:120]))
+                    continue
+                must = set(r for r, m in saved if ref_match(flt, m) is True)
+                if set(got) != must or len(got) != len(set(got)):
+                    ctx.violation('listing by a value that the recording holds in its data AND its metadata: %d ids on %s cassette, %d match' % (len(got), kind, len(must)), w)
+                per.setdefault(qi, {})[kind + ':' + prefix] = sorted(m['tok'] for r, m in saved if r in got)
+    for qi, by in per.items():
+        vals = list(by.values())
+        ctx.count('cross_cassette_comparisons')
+        if any(v != vals[0] for v in vals):
+            ctx.violation('cassettes disagree on the same saved set', {'shared_objects_listing': True, 'query': qi, 'tokens_by_cassette': by})
+
+
 def file_save_faults(ctx, n):
     """History with storage faults on the file cassette: while one recording is saved, moving / renaming files in the directory fails
     (disk full, permission, the process is killed at that point). Whatever the save did, later listings hold only ids of saved
@@ -344,6 +386,8 @@ def run(ctx):
         for kind, nt, per in (('memory', 2, 2), ('file', 2, 1), ('memory', 3, 1)):
             concsaves.explore(ctx, kind, nt, per, judge_concurrent, ctx.quick)
     file_save_faults(ctx, ctx.budget(20, 1000))
+    if ctx.shard == 0:
+        shared_objects_listing(ctx)
     n = ctx.budget(150, 5000)
     base = ctx.seed * 1000003 + ctx.shard * 100000
     for i in range(n):
@@ -354,6 +398,8 @@ def run(ctx):
 
 
 def replay(ctx, w):
+    if w.get('shared_objects_listing'):
+        return shared_objects_listing(ctx)
     if w.get('concurrent_saves') or w.get('file_save_faults'):
         print('scheduler / fault-history witness: re-run the check (the exploration is deterministic)')
         return
